@@ -24,16 +24,28 @@ trait Anchors: Sized + Copy {
         let a = Self::anchors();
         vec![a[0], a[a.len() / 2], a[a.len() - 1]]
     }
+    /// a second table of 3 strictly increasing values whose byte representations are ordered differently from the
+    /// numbers themselves (1 < 256 but [1,0] > [0,1] little-endian; -1 is all ones): a comparison through a byte
+    /// view or with the wrong signedness gets these wrong
+    fn digits2() -> Vec<Self> {
+        Self::digits()
+    }
 }
+thread_local! { static TABLE2: std::cell::Cell<bool> = std::cell::Cell::new(false); }
 macro_rules! anchors_u { ($($t:ty),*) => {$( impl Anchors for $t { fn anchors() -> Vec<$t> {
-    vec![0, 1, 2, <$t>::MAX / 2, <$t>::MAX / 2 + 1, <$t>::MAX - 1, <$t>::MAX] } } )*} }
+    vec![0, 1, 2, <$t>::MAX / 2, <$t>::MAX / 2 + 1, <$t>::MAX - 1, <$t>::MAX] }
+    fn digits2() -> Vec<$t> { if <$t>::BITS == 8 { Self::digits() } else { vec![1, 256u16 as $t, <$t>::MAX] } } } )*} }
 macro_rules! anchors_i { ($($t:ty),*) => {$( impl Anchors for $t { fn anchors() -> Vec<$t> {
-    vec![<$t>::MIN, <$t>::MIN + 1, -1, 0, 1, <$t>::MAX - 1, <$t>::MAX] } } )*} }
+    vec![<$t>::MIN, <$t>::MIN + 1, -1, 0, 1, <$t>::MAX - 1, <$t>::MAX] }
+    fn digits2() -> Vec<$t> { if <$t>::BITS == 8 { vec![-1, 1, <$t>::MAX] } else { vec![-1, 1, 256i16 as $t] } } } )*} }
 anchors_u!(u8, u16, u32, u64, u128, usize);
 anchors_i!(i8, i16, i32, i64, i128, isize);
 impl Anchors for char {
     fn anchors() -> Vec<char> {
         vec!['\0', 'a', '\u{D7FF}', '\u{E000}', '\u{FFFF}', '\u{10000}', '\u{10FFFF}']
+    }
+    fn digits2() -> Vec<char> {
+        vec!['a', '\u{100}', '\u{10000}']
     }
 }
 impl Anchors for bool {
@@ -46,7 +58,7 @@ impl Anchors for bool {
 }
 
 fn map_digits<T: Anchors>(ds: &[i64]) -> Option<Vec<T>> {
-    let d = T::digits();
+    let d = if TABLE2.with(|c| c.get()) { T::digits2() } else { T::digits() };
     ds.iter().map(|x| d.get(*x as usize).copied()).collect()
 }
 
@@ -177,6 +189,8 @@ pub fn replay(s: &mut Summary, v: &V) {
         ("flat", false) => {
             let l = ints_of(&v["l"]);
             let r = ints_of(&v["r"]);
+            for table2 in [false, true] {
+            TABLE2.with(|c| c.set(table2));
             flat_type!(s, l, r, exp_eq, exp_cmp, u8, konst::slice::eq_bytes, konst::slice::cmp_bytes, konst::slice::eq_option_bytes, konst::slice::cmp_option_bytes);
             flat_type!(s, l, r, exp_eq, exp_cmp, u8, sc::eq_slice_u8, sc::cmp_slice_u8, sc::eq_option_slice_u8, sc::cmp_option_slice_u8);
             flat_type!(s, l, r, exp_eq, exp_cmp, u16, sc::eq_slice_u16, sc::cmp_slice_u16, sc::eq_option_slice_u16, sc::cmp_option_slice_u16);
@@ -192,6 +206,8 @@ pub fn replay(s: &mut Summary, v: &V) {
             flat_type!(s, l, r, exp_eq, exp_cmp, isize, sc::eq_slice_isize, sc::cmp_slice_isize, sc::eq_option_slice_isize, sc::cmp_option_slice_isize);
             flat_type!(s, l, r, exp_eq, exp_cmp, bool, sc::eq_slice_bool, sc::cmp_slice_bool, sc::eq_option_slice_bool, sc::cmp_option_slice_bool);
             flat_type!(s, l, r, exp_eq, exp_cmp, char, sc::eq_slice_char, sc::cmp_slice_char, sc::eq_option_slice_char, sc::cmp_option_slice_char);
+            }
+            TABLE2.with(|c| c.set(false));
             // strings
             let (ls, rs) = (digits_str(&l), digits_str(&r));
             let (ls, rs) = (ls.as_str(), rs.as_str());
